@@ -666,8 +666,10 @@ impl Duration {
                     resolved_options
                 );
 
-                // c. Let roundRecord be ? RoundTimeDuration(duration.[[Days]], norm, roundingIncrement, smallestUnit, roundingMode).
-                let (round_record, _) = norm.round(self.days(), resolved_options)?;
+                // c. Let roundRecord be ? RoundTimeDuration(norm with 24-hour days, roundingIncrement, smallestUnit, roundingMode):
+                // the total is rounded, not the time part next to untouched days.
+                let norm = norm.add_days(self.days().as_())?;
+                let (round_record, _) = norm.round(FiniteF64::default(), resolved_options)?;
                 // d. Let normWithDays be ? Add24HourDaysToNormalizedTimeDuration(roundRecord.[[NormalizedDuration]].[[NormalizedTime]],
                 // roundRecord.[[NormalizedDuration]].[[Days]]).
                 let norm_with_days = round_record
